@@ -53,6 +53,9 @@ EXPECTED_PROBES = ["failed_call_in_history", "year_pivot_boundary_hit",
                    "two_digit_year", "offset_rendered", "default_from_clock",
                    "year_below_100", "input.bytes", "input.stream"]
 
+REAL = ['dateutil.parser (all of it), dateutil.tz, relativedelta from /repo/src', 'CPython 3.12, six', 'glibc localtime/tzset under the real TZ variable', 'real OS threads in the threads class (one runs at a time)']
+STUB = ["wall clock (SimClock behind the parser module's datetime/time names)", 'thread scheduling (seeded baton passing at sys.monitoring LINE events of parser/_parser.py)', "'import time' of the module default parser (re-created under the simulated clock)"]
+
 CLASSES = {
     "config":  dict(quick=12000, thorough=100000, timeout=60),
     "threads": dict(quick=3000, thorough=20000, timeout=60),
